@@ -75,6 +75,7 @@ def build_model(seed):
         # a generic interface named like the type (user-defined constructor): children of the module that only the kind tells apart
         ent("shape", "proc", m, "interface")
         ent("make_shape", "proc", m, "function")
+    ent("lone", "type", ma, "type")  # a type without constructor interface
     setup = ent("setup", "proc", ma, "subroutine")
     ent("only_b", "proc", mb, "subroutine")
     ent("callback", "absint", ma, "absinterface")
@@ -208,6 +209,7 @@ def plan_refs(model, rng, thorough):
                  (model["ma"].name, None, "shape", "interface"), (model["mb"].name, "module", "shape", "type"), (model["ma"].name, None, "shape", "type")]
         pool += [(model["ma"].name, None, "count", "bound"), (model["ma"].name, "module", "area", "final"), ("shape", "type", "side", "modproc"),
                  (model["mb"].name, None, "shape", "bound"), (model["ma"].name, None, "setup", "constructor")]
+        pool += [("lone", "type", "lone", "constructor"), ("lone", None, "lone", "constructor"), (model["ma"].name, None, "lone", "constructor")]
         pool += [("nosuchthing", None, None, None), ("nosuchthing", "module", None, None), (model["ma"].name, None, "nosuchchild", None),
                  ("area", "type", None, None), ("shape", "proc", None, None), ("nosuchthing", None, "init", None), ("nosuchthing", "module", "init", "subroutine")]
         chosen = pool if thorough and nrefs is None else rng.sample(pool, min(len(pool), nrefs or 14))
@@ -232,7 +234,9 @@ def plan_refs(model, rng, thorough):
         refs = []
         for t in texts:
             k[0] += 1
-            refs.append({"k": k[0], "ref": t, "expected": [], "fallback_to_parent": False, "code": False, "either": True})
+            refs.append({"k": k[0], "ref": t, "expected": [], "fallback_to_parent": False, "code": False, "either": True,
+                         # (host and contained procedure both have a dummy argument `weight`, shown on one page)
+                         "must_tracer": "zt900002" if "inner:weight" in t or (where == "inner" and t == "[[weight]]") else None})
         model["argrefs"][where] = refs
         sites.append({"kind": "doc:argument_refs_" + where, "ent": None, "refs": refs})
     return sites
@@ -267,6 +271,8 @@ def render(model, sites):
         t = ch["shape:type"]
         tc = {c.name: c for c in t.children}
         L += ["type :: shape"] + doc(t) + ["real :: side"] + doc(tc["side"]) + ["contains", f"procedure :: draw => draw_impl_{m.name}"] + doc(tc["draw"]) + ["end type shape"]
+        if "lone:type" in ch:
+            L += ["type :: lone"] + doc(ch["lone:type"]) + ["integer :: only_component", "end type lone"]
         L += ["integer :: count"] + doc(ch["count:variable"])
         L += ["interface shape"] + doc(ch["shape:proc"]) + ["module procedure make_shape", "end interface"]
         if "callback:absint" in ch:
@@ -284,8 +290,9 @@ def render(model, sites):
                 L += [f"subroutine {nm}()"] + doc(ch[nm + ":proc"]) + [f"end subroutine {nm}"]
         if m is model["ma"] and model.get("argrefs"):
             ar = model["argrefs"]
-            L += ["subroutine host_p()", "!! host doc " + ref_text(ar["host"]), "contains", "function inner(weight) result(w2)", "!! inner doc " + ref_text(ar["inner"]),
-                  "real, intent(in) :: weight", "!! weight doc", "real :: w2", "w2 = weight", "end function inner", "end subroutine host_p"]
+            L += ["subroutine host_p(weight)", "!! host doc " + ref_text(ar["host"]), "real, intent(in) :: weight", "!! zt900001 the host's weight", "contains",
+                  "function inner(weight) result(w2)", "!! inner doc " + ref_text(ar["inner"]),
+                  "real, intent(in) :: weight", "!! zt900002 the inner weight", "real :: w2", "w2 = weight", "end function inner", "end subroutine host_p"]
         L += [f"end module {m.name}"]
         if m is model["mb"]:
             pg = [e for e in E.values() if e.kind == "program"][0]
@@ -329,6 +336,11 @@ def case(arg):
                 "summary": ref_text(sbyk["summary"]["refs"]), "extra_filetypes": "inc !"}
         if seed % 4 == 1:
             opts["project_url"] = "https://example.org/docs"  # where the site will be published: [[references]] stay links between its pages
+        if seed % 5 == 2:
+            # the output directory is reached through a symbolic link
+            os.makedirs(os.path.join(base, "real_out"))
+            os.symlink("real_out", os.path.join(base, "lnk"))
+            opts["output_dir"] = "./lnk/doc"
         site.write_project_file(base, opts, body="Front matter. " + ref_text(sbyk["project_file"]["refs"]) + "\n")
         # run from a *different* working directory than the project (links must not depend on the cwd)
         st, r = core.run_alone(run_case, {"root": base}, timeout=300)
@@ -336,7 +348,7 @@ def case(arg):
             d = r if st == "ok" else {"harness": st, "detail": str(r)[-700:]}
             return {"viol": [{"kf": {"kind": "ford_run_failed" if st == "ok" else "harness_" + st, "message": str(d.get("error") or d.get("code") or "")[:80]},
                               "w": {"seed": seed, "detail": d, "files": files}}], "nrefs": 0, "nocc": 0, "sitekinds": [], "nontrivial": False, "hash": str(seed), "sample": None}
-        out = os.path.join(base, "doc")
+        out = os.path.join(base, "lnk", "doc") if seed % 5 == 2 else os.path.join(base, "doc")
         raw = {}
         for dp, dn, fn in os.walk(out):
             for f in fn:
@@ -412,6 +424,11 @@ def case(arg):
                                 if json.dumps(kf) not in seen:
                                     seen.add(json.dumps(kf))
                                     viol.append({"kf": kf, "w": {"seed": seed, "ref": rf, "page": rel, "href": am.group(1), "error": err}})
+                            elif rf.get("must_tracer") and "#" in am.group(1) and rf["must_tracer"] not in got:
+                                kf = {"kind": "link_points_to_other_entity", **kfb}
+                                if json.dumps(kf) not in seen:
+                                    seen.add(json.dumps(kf))
+                                    viol.append({"kf": kf, "w": {"seed": seed, "ref": rf, "page": rel, "href": am.group(1), "found_tracers": sorted(got)[:6]}})
                         continue
                     if rf["code"]:
                         if am or "[[" not in frag:
